@@ -478,3 +478,41 @@ func NearCurvePoints(q Point) (xs, ys []*big.Int, names []string) {
 }
 
 func itoa(i int) string { return big.NewInt(int64(i)).String() }
+
+// SpecialXPoints returns curve points whose affine x is special for the verification equation r = (e + x1) mod n:
+// x in {0, 1, 2, ...} (first few that are on the curve), x = n + j (x1 mod n wraps to a small value) and x = p - j.
+func SpecialXPoints() (pts []Point, names []string) {
+	exp := new(big.Int).Add(P, big.NewInt(1))
+	exp.Rsh(exp, 2)
+	try := func(X *big.Int, name string) bool {
+		if X.Sign() < 0 || X.Cmp(P) >= 0 {
+			return false
+		}
+		rhs := new(big.Int).Mul(X, X)
+		rhs.Mul(rhs, X)
+		rhs.Add(rhs, new(big.Int).Mul(A, X))
+		rhs.Add(rhs, B)
+		rhs.Mod(rhs, P)
+		y := new(big.Int).Exp(rhs, exp, P)
+		if new(big.Int).Exp(y, big.NewInt(2), P).Cmp(rhs) != 0 || !OnCurve(X, y) {
+			return false
+		}
+		pts = append(pts, Point{X: new(big.Int).Set(X), Y: y}, Point{X: new(big.Int).Set(X), Y: new(big.Int).Sub(P, y)})
+		names = append(names, name+":+y", name+":-y")
+		return true
+	}
+	for _, base := range []struct {
+		v    *big.Int
+		name string
+		dir  int64
+	}{{big.NewInt(0), "x=0+", 1}, {N, "x=n+", 1}, {new(big.Int).Sub(N, big.NewInt(1)), "x=n-1-", -1}, {new(big.Int).Sub(P, big.NewInt(1)), "x=p-1-", -1}, {new(big.Int).Lsh(big.NewInt(1), 255), "x=2^255+", 1}} {
+		found := 0
+		for j := int64(0); j < 200 && found < 2; j++ {
+			X := new(big.Int).Add(base.v, big.NewInt(j*base.dir))
+			if try(X, base.name+itoa(int(j))) {
+				found++
+			}
+		}
+	}
+	return
+}
